@@ -51,7 +51,13 @@ DOC_SLOTS = ['doc_mod', 'doc_cls', 'doc_meth', 'doc_attr', 'docfield_param', 'do
 CODE_SLOTS = ['const', 'const_nested', 'default', 'ann_str', 'ann_literal', 'ann_return', 'deco_arg', 'deprecated_repl', 'deprecated_ver', 'base_sub', 'alias', 'typevar']
 OPT_SLOTS = ['project_name', 'project_url', 'project_version', 'viewsource_base']
 STEM_SLOT = 'stem'
-ALL_SLOTS = DOC_SLOTS + CODE_SLOTS + OPT_SLOTS + [STEM_SLOT]
+# docstring text that markup itself places in an attribute value: the alternative text of a reST image, the target of a reST or
+# epytext hyperlink.  Quotes in it must not end the attribute.
+ATTR_SLOTS = ['rst_image_alt', 'rst_link_uri', 'epy_link_uri']
+ATTR_PIECES = ['"', "'", ' ', 'a', '=', 'onload', 'x', '&', ';', '&quot;', '%22', '/', '#', '?', '<', '>']
+ATTR_ATTACKS = ['x" onload="alert(1)', "x' onmouseover='alert(1)", 'x" onmouseover="alert(1)" y="', 'a"b', "a'b", '"', 'x" style="display:none', '"><script>alert(1)</script>',
+                '&quot; onload=&quot;x', 'x"onfocus=alert(1) autofocus="', '" a="1" b="2']
+ALL_SLOTS = DOC_SLOTS + CODE_SLOTS + OPT_SLOTS + [STEM_SLOT] + ATTR_SLOTS
 MARK_L, MARK_R = 'zq9', '9qz'
 UNPARSABLE_SLOTS = ('ann_str', 'ann_return', 'alias', 'deprecated_repl')  # also: @deprecated(replacement=) links valid identifiers only
 
@@ -103,7 +109,11 @@ def build_project(values: Dict[str, str], fmt: str) -> Tuple[Dict[str, str], Lis
         '        pass',
     ]) + '\n'
     stem = v['stem']
-    files = {'pkg/__init__.py': '"""pkg"""\n', 'pkg/mod.py': src, 'pkg/%s.py' % stem: '"""stem module"""\nclass InStem:\n    def f(self): pass\n'}
+    uri = v['rst_link_uri'].replace('\\', '\\\\').replace(' ', '\\ ')
+    rst_doc = 'Module with reST markup.\n\n.. image:: pic.png\n   :alt: %s\n\nSee `the link text <http://example.org/%s>`_ for more.\n' % (v['rst_image_alt'], uri)
+    epy_doc = 'Module with epytext markup, see U{the link text<http://example.org/%s>} for more.\n' % v['epy_link_uri']
+    files = {'pkg/attrs_rst.py': '__docformat__ = "restructuredtext"\n__doc__ = %s\n' % r(rst_doc), 'pkg/attrs_epy.py': '__docformat__ = "epytext"\n__doc__ = %s\n' % r(epy_doc)}
+    files.update({'pkg/__init__.py': '"""pkg"""\n', 'pkg/mod.py': src, 'pkg/%s.py' % stem: '"""stem module"""\nclass InStem:\n    def f(self): pass\n'})
     args = ['--docformat=' + fmt, '--project-name=' + v['project_name'], '--project-url=' + v['project_url'], '--project-version=' + v['project_version'],
             '--html-viewsource-base=' + v['viewsource_base'], '--project-base-dir=.',
             # escaped characters change the displayed length; no wrapping keeps the layout independent of it
@@ -252,6 +262,9 @@ def st_case():
                 if fmt == 'epytext':
                     pieces = [p for p in pieces if '{' not in p and '}' not in p]
                 canaries[s] = draw(payload(pieces))
+            elif s in ATTR_SLOTS:
+                bad = {'rst_image_alt': '', 'rst_link_uri': '<>', 'epy_link_uri': '<>'}[s]
+                canaries[s] = draw(payload([p for p in ATTR_PIECES if not any(ch in p for ch in bad)]))
             elif s == STEM_SLOT:
                 canaries[s] = draw(payload(['<', '>', '&', '"', "'", '&lt;', '<b>', ' ', '%', '#', '+', ';', '=', 'a']))
             elif s in OPT_SLOTS:
@@ -297,8 +310,10 @@ def work(item: Dict[str, Any]) -> Acc:
         idx = 0
         fmts = ['epytext', 'restructuredtext', 'google', 'numpy', 'plaintext']
         for slot in ALL_SLOTS:
-            attacks = HTML_ATTACKS if slot in DOC_SLOTS or slot == STEM_SLOT else HTML_ATTACKS + MARKUP_ATTACKS
+            attacks = HTML_ATTACKS if slot in DOC_SLOTS or slot == STEM_SLOT else (ATTR_ATTACKS if slot in ATTR_SLOTS else HTML_ATTACKS + MARKUP_ATTACKS)
             for ai, payload in enumerate(attacks):
+                if slot in ('rst_link_uri', 'epy_link_uri') and ('<' in payload or '>' in payload):
+                    continue  # angle brackets delimit the target in the markup itself
                 if slot == STEM_SLOT and ('/' in payload or '\x00' in payload):
                     continue
                 if slot in DOC_SLOTS and ('\x0c' in payload or ' ' in payload.strip() and False):
